@@ -4,7 +4,8 @@
    pyxel/detectors/detector.py, pyxel/detectors/mkid/mkid.py and the installed numpy.
 
    Round 2: the defects C13-F2a/b/c (Photon += / + and the detector's photon setter let unvalidated
-   arrays in) and C13-F3a/b/c (asymmetric, raising, geometry-blind ==) are repaired in the code; the
+   arrays in), C13-F2d (ArrayBase += / + changed the stored array before rejecting the result) and
+   C13-F3a/b/c (asymmetric, raising, geometry-blind ==) are repaired in the code; the
    former `_refuted` / `_partial` theorems are replaced by the full statements below.  The translator
    still recognises the old shapes of that code and then emits tables for which `tables_ok` is false,
    so a regression breaks C13_source_tables_ok and everything that depends on it. *)
@@ -20,7 +21,8 @@ Import ListNotations.
    setters on every branch, ArrayBase.__eq__ compares emptiness on both sides and Photon.__eq__
    compares the geometry, every getter (and both __array__ methods) refuses an empty container,
    empty() stores None (float zeros allowed for Pixel only), Detector.empty empties photon, signal,
-   image always and pixel at least under reset, MKID.empty zeroes the phase array under reset. *)
+   image always and pixel at least under reset, MKID.empty zeroes the phase array under reset,
+   ArrayBase.__iadd__ / __add__ add on a copy (nothing is changed before the result is validated). *)
 Theorem C13_source_tables_ok : tables_ok src_tables = true.
 Proof. vm_compute. reflexivity. Qed.
 Print Assumptions C13_source_tables_ok.
@@ -195,6 +197,17 @@ Example C13_ex_former_witnesses :
   /\ step src_tables w_photon (ODAssign (mk_cont Image 2 2 (Some (mk_np [2; 2] U16 [1; 1; 1; 1]%Z))))
      = (w_photon, Raise ValueError).
 Proof. vm_compute. repeat split; reflexivity. Qed.
+
+(* C13-F2d: `pixel += DataArray` raises and (now) changes nothing; with the former in-place shape of the code the
+   same step raised AFTER the stored array had been modified *)
+Definition w_pix := mk_cont Pixel 2 3 (Some (mk_np [2; 3] F64 [1; 1; 1; 1; 1; 1]%Z)).
+Definition w_da := mk_xr [1; 2] None [2; 3] F64 [5; 5; 5; 5; 5; 5]%Z.
+
+Example C13_ex_former_witness_iadd_dataarray :
+  step src_tables w_pix (OIAdd w_da) = (w_pix, Raise TypeError)
+  /\ base_iadd src_tables BIInPlace w_pix w_da
+     = (mk_cont Pixel 2 3 (Some (mk_np [2; 3] F64 [6; 6; 6; 6; 6; 6]%Z)), Raise TypeError).
+Proof. vm_compute. split; reflexivity. Qed.
 
 (* a long photon history: accepted and rejected operations, clipping on assignment AND on +=, 2-D and 3-D *)
 Example C13_ex_history :
